@@ -199,6 +199,22 @@ def other_functions_clause(cl, rng, n, replay):
             if any(not rp.same_snapshot(a, rp.snapshot_record(r)) for a, r in zip(snaps, recs)) or not np.array_equal(mask, [True, False, True]):
                 cl.fail("hvsrpy.postprocessing.plot_seismic_recordings_3c", "plotting changed the recordings / the mask", signature="plot:records-frame")
                 return
+            # azimuthal contour: the per-azimuth markers are the object's mean-curve peaks, searched in the object's search range (two-mode curves whose
+            # higher peak lies outside the range)
+            f3 = np.geomspace(0.2, 20, 60)
+            two = lambda: np.array([1 + 2 * np.exp(-(np.log(f3 / rng.uniform(0.9, 1.3)) / 0.2) ** 2) + 4 * np.exp(-(np.log(f3 / rng.uniform(5.5, 7)) / 0.2) ** 2) for _ in range(4)])
+            hb = hvsrpy.HvsrAzimuthal([hvsrpy.HvsrTraditional(f3, two()) for _ in range(3)], [0., 60., 120.])
+            hb.update_peaks_bounded(search_range_in_hz=(0.4, 3.0))
+            want_f, _ = hb.mean_curve_peak_by_azimuth(distribution="lognormal")
+            figc, (axc, _cax) = hvsrpy.plot_azimuthal_contour_2d(hb, distribution_mc="lognormal")
+            marks = [ln for ln in axc.get_lines() if ln.get_marker() == "s"]
+            okc = len(marks) == 1 and np.allclose(marks[0].get_xdata(), want_f, rtol=0, atol=1e-12) and np.allclose(marks[0].get_ydata(), hb.azimuths)
+            plt.close("all")
+            cl.case(("contour-markers", j))
+            if not okc:
+                cl.fail("hvsrpy.postprocessing.plot_azimuthal_contour_2d", "the per-azimuth peak markers are not the object's mean-curve peaks in its search range",
+                        signature="plot:contour-markers")
+                return
             # azimuthal contour plots are read-only
             ha, f2, As2 = gen_az(rng, naz=3)
             reject_some(rng, ha)
